@@ -162,6 +162,9 @@ int vf_main(void) {
     m_mod_t *B = vf_mod(1, 0, NULL); r = m_mod_start(B); VF_CHECK(r == 0, "start B");
     r = m_ctx_dispatch();
     { m_src_task_t t = { 1, vf_task_fn }; r = m_mod_src_register_task(B, &t, 0, NULL); VF_CHECK(r == 0, "task source"); }
+#ifdef VF_KF_task_outlives_source
+    vf_run_tasks();            /* known finding excluded: the task completes before its module goes */
+#endif
 #if V == 0
     r = m_mod_stop(B); VF_CHECK(r == 0, "stop B while its task has not finished");
 #else
